@@ -467,6 +467,20 @@ def c09g(tree, ob):
                            loop, [cg.chain_text(c) for c in mutators[:3]])
             else:
                 ob.site(AGENT, loop, qual + ': handler loop is safe against removal during iteration')
+            if qual == 'Agent.shutdown' and isinstance(loop.target, ast.Name):
+                # graceful means graceful for every contact: ContactHandler.terminate() itself decides what a contact without a
+                # session needs (it closes it).  A shutdown that sorts contacts by their state and closes some of them cuts off
+                # the ones that are already ending with a transfer still in progress.
+                t = loop.target.id
+                terms = [c for c in calls_in(loop) if isinstance(c.func, ast.Attribute) and c.func.attr == 'terminate' and src(c.func.value) == t]
+                closes = [c for c in calls_in(loop) if isinstance(c.func, ast.Attribute) and c.func.attr in ('close', 'stop') and src(c.func.value) == t]
+                direct = [c for c in terms if getattr(getattr(c, '_parent', None), '_parent', None) is loop]
+                if closes:
+                    ob.violate(AGENT, qual, src(closes[0]), 'shutdown closes some contacts itself instead of terminating them: a session that is already ending with a transfer in progress is cut off', closes[0], sure=True)
+                elif not direct:
+                    ob.violate(AGENT, qual, 'for {} in ...: {}.terminate() not unconditional'.format(t, t), 'shutdown does not terminate every contact (the call is missing or conditional)', loop)
+                else:
+                    ob.site(AGENT, direct[0], 'shutdown terminates every contact, whatever its state')
 
 
 def c09h(tree, ob):
